@@ -588,10 +588,14 @@ func (s *clientSocket) callEvent(
 	// Set the lastOffset before calling the handler.
 	// An error can occur when the handler gets called,
 	// and we can miss setting the lastOffset.
+	//
+	// `values` holds exactly one value per parameter of the handler (the offset
+	// appended by the server is an extra wire argument that is not decoded unless the
+	// handler declares a parameter for it), so nothing must be removed here:
+	// removing the last value would leave the call one argument short.
 	_, ok := s.pid()
 	if ok && len(values) > 0 && values[len(values)-1].Kind() == reflect.String {
 		s.setLastOffset(values[len(values)-1].String())
-		values = values[:len(values)-1] // Remove offset
 	}
 
 	ack, _ := handler.ack()
